@@ -168,8 +168,11 @@ def claim_of(P, r):
     if k != len(nodes):
         return None
     syms = []
+    fnames = {f["name"] for f in P.get("fns", [])}
     for s in r.get("symbols", []):
         v = s["value"]
+        if s["name"] in fnames and v.get("t") != "int":
+            continue                   # a user function's own symbol: not a label or constant of the program
         isint = v.get("t") == "int"
         wide = isint and (len(str(v["v"])) > 11 or not (-BIG < int(v["v"]) < BIG))
         syms.append({"name": s["name"], "int": isint, "wide": bool(wide), "v": int(v["v"]) if isint and not wide else 0})
@@ -248,11 +251,23 @@ def run_c15(ck):
     progs = [genasm.gen_symbol_program(rng) for _ in range(n)]
     jobs = [{"mode": "asm", "files": {"main.asm": genasm.render_program(P)}, "roots": ["main.asm"],
              "want": {"messages": False, "spans": False}} for P in progs]
+    # chains of constants in every declaration order, also under small iteration budgets
+    # (the budget bounds the passes over addresses, not how far constants may depend on each other)
+    for length in (list(range(2, 46, 3)) if quick else range(2, 61)):
+        for order in ("reverse", "forward", "shuffled"):
+            for budget in (None, 2, 3):
+                P = genasm.gen_const_chain(rng, length, order)
+                progs.append(P)
+                j = {"mode": "asm", "files": {"main.asm": genasm.render_program(P)}, "roots": ["main.asm"],
+                     "want": {"messages": False, "spans": False}}
+                if budget:
+                    j["opts"] = {"budget": budget, "opt_static": True, "opt_matcher": True}
+                jobs.append(j)
     results = common.run_jobs(jobs, ck.wd + "/jobs")
     ck.evaluations += len(jobs)
     events = []
     stats = {"accepted": 0, "rejected": 0, "certified": 0}
-    ncase = len(progs)
+    CERT = 1 << 20
     for i, (P, r) in enumerate(zip(progs, results)):
         if r.get("crash") or r.get("panic"):
             ck.violation("panic:%s@%s" % (str(r.get("panic") or r.get("crash"))[:60], r.get("panic_at", "")),
@@ -268,7 +283,7 @@ def run_c15(ck):
             if claim is None:
                 ck.violation("glue:cannot-align-events", {"source": jobs[i]["files"]["main.asm"][:500]}, {"job": jobs[i]})
             else:
-                events.append({"ev": "cert", "case": ncase + i, "prog": P, "claim": claim})
+                events.append({"ev": "cert", "case": CERT + i, "prog": P, "claim": claim})
                 stats["certified"] += 1
         if i % 500 == 0:
             ck.sample({"source": jobs[i]["files"]["main.asm"], "accepted": o["ok"], "symbols": o["syms"][:8]}, limit=4)
@@ -283,19 +298,19 @@ def run_c15(ck):
               "want": {"messages": False, "spans": False, "events": False}} for _, Q in moved]
     mres = common.run_jobs(mjobs, ck.wd + "/moved") if mjobs else []
     ck.evaluations += len(mjobs)
-    base = len(progs)
     for k, ((i, Q), r) in enumerate(zip(moved, mres)):
         if r.get("crash") or r.get("panic") or results[i].get("crash") or results[i].get("panic"):
             continue
-        events.append({"ev": "asm7", "case": base + k, "progs": [progs[i], Q], "obs": [observe(results[i]), observe(r)]})
+        events.append({"ev": "asm7", "case": len(jobs), "progs": [progs[i], Q], "obs": [observe(results[i]), observe(r)]})
         jobs.append(mjobs[k])
         progs.append(Q)
         results.append(r)
     ck.extra["moved_constant_pairs"] = len(moved)
     failed = tv.judge(ck, "TraceAsm", "TraceAsm.cfg", events, ck.wd, tag="sym", shard=400, timeout=2400)
     ck.traces += len(events)
-    for case in sorted(failed):
-        for tag in sorted(set(failed[case])):
+    for case0 in sorted(failed):
+        case = case0 - CERT if case0 >= CERT else case0
+        for tag in sorted(set(failed[case0])):
             ck.violation("TraceAsm:C15:" + tag, {"verdict": tag, "source": jobs[case]["files"]["main.asm"],
                                                  "observed_ok": not results[case].get("error"),
                                                  "symbols": observe(results[case])["syms"]},
@@ -355,7 +370,7 @@ def run_c16(ck):
 def run_c17(ck):
     quick = ck.tier == "quick"
     rng = random.Random(ck.seed + 17)
-    n = 500 if quick else 8000
+    n = 900 if quick else 8000
     progs = [genasm.gen_macro_program(rng) for _ in range(n)]
     # pinned inputs (known findings and regressions) are re-run on every run
     import glob, json, os
